@@ -49,6 +49,14 @@ def run(ctx) -> None:
     check_facets(ctx)
     check_occurs(ctx)
     check_props(ctx)
+    # the inference the schema is fed from (shared with C15): bound arithmetic per comparator, folding direction, intersection
+    ctx.rule("BOUND", "each (operand order, comparator) arm of the length matcher yields the oracle's (bound kind, offset) (shared with C15)", floor=12)
+    ctx.rule("DIR", "min bounds fold with max, max bounds fold with min; merging two ranges intersects them (shared with C15)", floor=8)
+    ctx.rule("INTER", "set constraints are intersected; patterns de-duplicated (shared with C15)", floor=3)
+    from . import c15 as _c15
+    _c15._check_bounds(ctx)
+    _c15._check_direction(ctx)
+    _c15._check_intersection(ctx)
     ctx.rule("STACK-ORDER", "constraints of constrained-primitive chains and ancestors are stacked parents-first (shared with C12/C15)", floor=2)
     from ..rules import stack
     for m in ctx.p.modules.values():
@@ -207,6 +215,7 @@ def check_occurs(ctx) -> None:
     f = p.func("xsd.main:_value_to_type_element_or_type_identifier")
     parents = S.parents_of(f)
     assigns = [n for n in walk_function_body(f.node) if isinstance(n, ast.Assign) and len(n.targets) == 1]
+    other = {"min_value": "max_value", "max_value": "min_value"}
     for var, attr, default, key in (("min_occurs", "min_value", "0", "minOccurs"), ("max_occurs", "max_value", "unbounded", "maxOccurs")):
         defs = [a for a in assigns if dotted_of(a.targets[0]) == var]
         consts = [a for a in defs if isinstance(a.value, ast.Constant)]
@@ -218,12 +227,14 @@ def check_occurs(ctx) -> None:
             len(consts) == 1 and consts[0].value.value == default and len(srcs) == 1
             and ast.unparse(srcs[0].value) == f"str(constraints.len_constraint.{attr})"
             and f"constraints.len_constraint.{attr} is not None" in _guards_txt(srcs[0], parents)
+            # the bound does not depend on the other bound being present
+            and not [g for g in _guards_txt(srcs[0], parents) if f"len_constraint.{other[attr]}" in g]
             and len(stores) == 1 and not [g for g in _guards_txt(stores[0], parents) if "len_constraint" in g]
         )
         if ok:
             ctx.ok("OCCURS", f, srcs[0], what=what)
         else:
-            ctx.fail("OCCURS", f, f.node, f"`{key}` of the list item is not the string of len_constraint.{attr} (default {default!r}) stored unconditionally on item_element", construct=what)
+            ctx.fail("OCCURS", f, f.node, f"`{key}` of the list item is not the string of len_constraint.{attr} (default {default!r}), taken whenever that bound is set (independently of the other bound) and stored unconditionally on item_element", construct=what)
     appended = [n for n in walk_function_body(f.node) if isinstance(n, ast.Call) and ast.unparse(n.func) == "xs_sequence.append" and n.args and dotted_of(n.args[0]) == "item_element"]
     if appended:
         ctx.ok("OCCURS", f, appended[0], what="the item element is part of the returned sequence")
